@@ -104,8 +104,10 @@ class ExpectationMaximization(ParameterEstimator):
             weights = np.e ** (
                 df.apply(lambda t: self._get_log_likelihood(dict(t)), axis=1)
             )
+            key = tuple(data_unique.iloc[i])
+            # groupby over a single column yields scalar keys instead of 1-tuples
             df["_weight"] = (weights / weights.sum()) * n_counts[
-                tuple(data_unique.iloc[i])
+                key if key in n_counts else key[0]
             ]
             cache.append(df)
 
